@@ -1446,6 +1446,7 @@ func (p *pipe) DoMultiStream(ctx context.Context, pool *pool, multi ...Completed
 }
 
 func (p *pipe) syncDo(dl time.Time, dlOk bool, cmd Completed) (resp RedisResult) {
+	vhook("pipe.sync", p, 1, 0)
 	if dlOk {
 		if p.timeout > 0 && !cmd.IsBlock() {
 			defaultDeadline := time.Now().Add(p.timeout)
@@ -1478,6 +1479,7 @@ func (p *pipe) syncDo(dl time.Time, dlOk bool, cmd Completed) (resp RedisResult)
 }
 
 func (p *pipe) syncDoMulti(dl time.Time, dlOk bool, resp []RedisResult, multi []Completed) {
+	vhook("pipe.sync", p, len(multi), 0)
 	if dlOk {
 		if p.timeout > 0 {
 			for _, cmd := range multi {
